@@ -1,6 +1,7 @@
 CONSTANTS
   MaxTasks = 4
   PanicKinds = {"string", "error", "nilmap", "index", "nilptr", "nil", "nilerr", "typednil", "int"}
+  Modes = {"group", "inner", "log"}
 INIT TInit
 NEXT TNext
 CONSTRAINT Judge HW
